@@ -304,14 +304,14 @@ var jTargeted = []map[string]int64{
 }
 
 type jWitness struct {
-	Scenario *jScenario      `json:"scenario"`
-	Hook     jHook           `json:"hook"`
-	Findings []string        `json:"findings"`
-	Subs     map[string]any  `json:"subscribers"`
-	Pubs     []string        `json:"publishes"`
-	Shutdown []string        `json:"shutdowns"`
-	Log      []string        `json:"replayer_log"`
-	Stacks   string          `json:"stacks,omitempty"`
+	Scenario *jScenario     `json:"scenario"`
+	Hook     jHook          `json:"hook"`
+	Findings []string       `json:"findings"`
+	Subs     map[string]any `json:"subscribers"`
+	Pubs     []string       `json:"publishes"`
+	Shutdown []string       `json:"shutdowns"`
+	Log      []string       `json:"replayer_log"`
+	Stacks   string         `json:"stacks,omitempty"`
 }
 
 func jMakeWitness(sc *jScenario, tr *jTrace, fs []jv) jWitness {
